@@ -76,8 +76,15 @@ def main():
     out["ran"] = "tools/seedtest.py %s" % " ".join(sys.argv[1:])
     dest = os.path.join(ROOT, "seeded", name)
     os.makedirs(dest, exist_ok=True)
-    shutil.copy(patch, os.path.join(dest, "patch.diff"))
-    shutil.copy(demo, os.path.join(dest, os.path.basename(demo)))
+    if os.path.abspath(seed_dir) != os.path.abspath(dest):
+        shutil.copy(patch, os.path.join(dest, "patch.diff"))
+        shutil.copy(demo, os.path.join(dest, os.path.basename(demo)))
+    if skip_tests:
+        # a re-evaluation of a stored seed: the test-suite result was established when it was first stored
+        for k in ("tests_tail", "tests_ok"):
+            if k in meta:
+                out[k] = meta[k]
+        out["verified"] = bool(out["verified"] and meta.get("tests_ok", True))
     json.dump(out, open(os.path.join(dest, "meta.json"), "w"), indent=1)
     print(json.dumps({k: out[k] for k in ("name", "verified", "detected_by_own_check")}), results[prop]["summary"])
     for l in results[prop]["violations"][:6]:
